@@ -285,3 +285,419 @@ def raise (is : List RInstr) : Outcome (List Out) :=
   else raiseFrom is 0 0 is
 
 end TruthModel.Time
+
+/-! # C13 extension (round 2): every statement shape that carries or interacts with times
+
+Compile direction (`namespace X`): the whole of `TimeAndDifficultyHelper` / `Visitor`
+(`src/passes/semantics/time_and_difficulty.rs`) with BOTH stacks:
+
+* `interrupt[n]:` is a physical statement (an instruction): it inherits the current time;
+* `{"EN"}: stmt` (difficulty label, only in front of physical statements by the grammar) pushes the
+  mask on the difficulty stack for the statement and everything inside it and never touches the time;
+* a statement may own several blocks (`if .. else if .. else ..`): `visit_block` is called on them in
+  textual order, each `enter_block` duplicates the top of the difficulty stack, none touches the time:
+  the time at the start of an `else` block is the time at the END of the block before it (textual,
+  not control-flow, order);
+* a nested function item is visited through `visit_root_block`: a fresh `0` on the time stack and the
+  default mask on the difficulty stack, both popped at the end (the enclosing time resumes);
+* `L:` is recorded with the current time: that is the value of `timeof(L)` and of the time argument
+  of `goto L` (`LowerStmt::Label { time }` -> `RawLabelInfo.time`, `encode_labels`);
+  `goto L @ t` stores `t`.
+-/
+namespace TruthModel.Time.X
+
+/-- difficulty mask byte, the value `compute_diff_label_masks` stored in the label (its parsing is C14) -/
+abbrev Mask := UInt8
+def defaultMask : Mask := 0xFF
+
+inductive Stmt where
+  | abs (t : Int32)
+  | rel (d : Int32)
+  | relBad
+  /-- an instruction call -/
+  | instr
+  /-- `interrupt[n]:` -/
+  | interrupt
+  /-- `name:` -/
+  | label (name : Nat)
+  /-- `goto dest @ tm;` / `goto dest;` -/
+  | goto (dest : Nat) (tm : Option Int32)
+  /-- an instruction with a `timeof(lbl)` argument -/
+  | timeof (lbl : Nat)
+  /-- `{"mask"}: s` -/
+  | tagged (mask : Mask) (s : Stmt)
+  /-- a statement with blocks: `{}`, `loop`, `times`, `while`, `do-while` (one block),
+  `if .. else if .. else ..` (one block per branch, in textual order) -/
+  | blocks (bs : List (List Stmt))
+  /-- a nested function item `void f() { body }` -/
+  | func (body : List Stmt)
+deriving Repr, Inhabited
+
+inductive Kind where
+  | timeLabel | instr | interrupt
+  | label (name : Nat)
+  | goto (dest : Nat) (tm : Option Int32)
+  | timeof (lbl : Nat)
+  | block | item
+deriving Repr, DecidableEq, Inhabited
+
+/-- `TimeAndDifficulty` of one statement; `depth` = number of nested function items around it
+(length of the time stack minus one) -/
+structure Rec where
+  kind : Kind
+  time : Int32
+  mask : Mask
+  depth : Nat
+deriving Repr, DecidableEq, Inhabited
+
+structure VState where
+  timeStack : List Int32
+  diffStack : List Mask
+  failed : Bool
+  out : List Rec
+  panicked : Option String
+deriving Repr, Inhabited
+
+def emptyDiffMsg : String := "empty diff stack?! (bug)"
+
+def panicWith (st : VState) (msg : String) : VState := { st with panicked := st.panicked.or (some msg) }
+
+/-- `visit_stmt_shallow` -/
+def shallow (st : VState) : Stmt → VState
+  | .abs v => match st.timeStack with
+    | [] => panicWith st emptyStackMsg
+    | _ :: rest => { st with timeStack := v :: rest }
+  | .rel d => match st.timeStack with
+    | [] => panicWith st emptyStackMsg
+    | cur :: rest => { st with timeStack := (cur + d) :: rest }
+  | .relBad => match st.timeStack with
+    | [] => panicWith st emptyStackMsg
+    | _ :: _ => { st with failed := true }
+  | _ => st
+
+/-- `helper.time()`, `helper.difficulty_mask()`, `id_map_insert` -/
+def record (st : VState) (k : Kind) : VState :=
+  match st.timeStack, st.diffStack with
+  | [], _ => panicWith st emptyStackMsg
+  | _ :: _, [] => panicWith st emptyDiffMsg
+  | t :: ts, m :: _ => { st with out := ⟨k, t, m, ts.length⟩ :: st.out }
+
+/-- `enter_stmt`, difficulty part -/
+def pushDiff (st : VState) (m : Mask) : VState := { st with diffStack := m :: st.diffStack }
+
+/-- `exit_stmt` / `exit_block` -/
+def popDiff (st : VState) : VState :=
+  match st.diffStack with
+  | [] => panicWith st emptyDiffMsg
+  | _ :: r => { st with diffStack := r }
+
+/-- `enter_block` -/
+def enterBlock (st : VState) : VState :=
+  match st.diffStack with
+  | [] => panicWith st "called `Option::unwrap()` on a `None` value"
+  | m :: r => { st with diffStack := m :: m :: r }
+
+/-- `enter_root_block` -/
+def enterRoot (st : VState) : VState :=
+  { st with timeStack := 0 :: st.timeStack, diffStack := defaultMask :: st.diffStack }
+
+/-- `exit_root_block` -/
+def exitRoot (st : VState) : VState :=
+  match st.timeStack with
+  | [] => panicWith st emptyStackMsg
+  | _ :: ts => match st.diffStack with
+    | [] => panicWith st emptyDiffMsg
+    | _ :: ds => { st with timeStack := ts, diffStack := ds }
+
+mutual
+/-- `Visitor::visit_stmt` -/
+def visitStmt (st : VState) : Stmt → VState
+  | .abs v => record (shallow st (.abs v)) .timeLabel
+  | .rel d => record (shallow st (.rel d)) .timeLabel
+  | .relBad => record (shallow st .relBad) .timeLabel
+  | .instr => record st .instr
+  | .interrupt => record st .interrupt
+  | .label n => record st (.label n)
+  | .goto d tm => record st (.goto d tm)
+  | .timeof l => record st (.timeof l)
+  -- enter_stmt pushes the mask (the shallow visit does nothing on a physical statement), the
+  -- statement is recorded and walked with it, exit_stmt pops
+  | .tagged m s => popDiff (visitStmt (pushDiff st m) s)
+  | .blocks bs => visitBlocks (record st .block) bs
+  -- walk_stmt -> visit_item -> visit_root_block
+  | .func body => exitRoot (popDiff (visitBlock (enterBlock (enterRoot (record st .item))) body))
+/-- `walk_block` -/
+def visitBlock (st : VState) : List Stmt → VState
+  | [] => st
+  | s :: ss => visitBlock (visitStmt st s) ss
+/-- `visit_block` on every block of a statement, in textual order -/
+def visitBlocks (st : VState) : List (List Stmt) → VState
+  | [] => st
+  | b :: bs => visitBlocks (popDiff (visitBlock (enterBlock st) b)) bs
+end
+
+/-- `time_and_difficulty::run`: `enter_root_block; enter_block; visit` -/
+def run (body : List Stmt) : Outcome (List Rec) :=
+  let st := visitBlock { timeStack := [0], diffStack := [defaultMask, defaultMask], failed := false, out := [], panicked := none } body
+  match st.panicked with
+  | some site => .panic site
+  | none => if st.failed then .err constErr else .ok st.out.reverse
+
+/-! ### the specification: time is threaded through the text, the mask is lexically scoped -/
+
+mutual
+/-- the time after a statement -/
+def endStmt (t : Int32) : Stmt → Int32
+  | .abs v => v
+  | .rel d => t + d
+  | .tagged _ s => endStmt t s
+  | .blocks bs => endBlocks t bs
+  | .relBad | .instr | .interrupt | .label _ | .goto _ _ | .timeof _ | .func _ => t
+def endBlock (t : Int32) : List Stmt → Int32
+  | [] => t
+  | s :: ss => endBlock (endStmt t s) ss
+def endBlocks (t : Int32) : List (List Stmt) → Int32
+  | [] => t
+  | b :: bs => endBlocks (endBlock t b) bs
+end
+
+mutual
+/-- what is recorded for a statement (and everything inside it) that starts at time `t` under the
+mask `m` inside `dp` nested functions -/
+def recsStmt (t : Int32) (m : Mask) (dp : Nat) : Stmt → List Rec
+  | .abs v => [⟨.timeLabel, v, m, dp⟩]
+  | .rel d => [⟨.timeLabel, t + d, m, dp⟩]
+  | .relBad => [⟨.timeLabel, t, m, dp⟩]
+  | .instr => [⟨.instr, t, m, dp⟩]
+  | .interrupt => [⟨.interrupt, t, m, dp⟩]
+  | .label n => [⟨.label n, t, m, dp⟩]
+  | .goto d tm => [⟨.goto d tm, t, m, dp⟩]
+  | .timeof l => [⟨.timeof l, t, m, dp⟩]
+  | .tagged k s => recsStmt t k dp s
+  | .blocks bs => ⟨.block, t, m, dp⟩ :: recsBlocks t m dp bs
+  | .func body => ⟨.item, t, m, dp⟩ :: recsBlock 0 defaultMask (dp + 1) body
+def recsBlock (t : Int32) (m : Mask) (dp : Nat) : List Stmt → List Rec
+  | [] => []
+  | s :: ss => recsStmt t m dp s ++ recsBlock (endStmt t s) m dp ss
+def recsBlocks (t : Int32) (m : Mask) (dp : Nat) : List (List Stmt) → List Rec
+  | [] => []
+  | b :: bs => recsBlock t m dp b ++ recsBlocks (endBlock t b) m dp bs
+end
+
+mutual
+/-- a non-constant delta anywhere (also inside nested functions) -/
+def badStmt : Stmt → Bool
+  | .relBad => true
+  | .tagged _ s => badStmt s
+  | .blocks bs => badBlocks bs
+  | .func body => badBlock body
+  | .abs _ | .rel _ | .instr | .interrupt | .label _ | .goto _ _ | .timeof _ => false
+def badBlock : List Stmt → Bool
+  | [] => false
+  | s :: ss => badStmt s || badBlock ss
+def badBlocks : List (List Stmt) → Bool
+  | [] => false
+  | b :: bs => badBlock b || badBlocks bs
+end
+
+/-! ### lowering: what ends up in the instructions -/
+
+/-- an emitted instruction: time, difficulty mask, and the time-valued argument if it has one -/
+inductive CInstr where
+  | plain (t : Int32) (m : Mask)
+  | interrupt (t : Int32) (m : Mask)
+  /-- `goto`: `arg` is the jump's time argument -/
+  | jump (t : Int32) (m : Mask) (arg : Int32)
+  /-- an instruction with `timeof(L)` as its argument -/
+  | timeof (t : Int32) (m : Mask) (v : Int32)
+deriving Repr, DecidableEq, Inhabited
+
+/-- nested function items are not lowered (`StmtKind::Item => {}` in `lower/stackless.rs`) -/
+def lowered (rs : List Rec) : List Rec := rs.filter (fun r => r.depth == 0)
+
+/-- `gather_label_info`: label name -> time of the label statement -/
+def labelTable (rs : List Rec) : List (Nat × Int32) :=
+  rs.filterMap fun r => match r.kind with
+    | .label n => some (n, r.time)
+    | _ => none
+
+def lookupLabel (tbl : List (Nat × Int32)) (n : Nat) : Option Int32 :=
+  (tbl.find? (fun e => e.1 == n)).map (·.2)
+
+def hasDupLabel : List (Nat × Int32) → Bool
+  | [] => false
+  | e :: es => es.any (fun x => x.1 == e.1) || hasDupLabel es
+
+def dupLabelMsg : String := "duplicate label"
+def undefLabelMsg : String := "undefined label"
+
+/-- `populate_time_args` + `encode_labels` for one statement: `goto L @ t` stores `t`, `goto L`
+stores `timeof(L)`, `timeof(L)` is the time recorded for the label statement -/
+def lowerRec (tbl : List (Nat × Int32)) (r : Rec) : Outcome (Option CInstr) :=
+  match r.kind with
+  | .instr => .ok (some (.plain r.time r.mask))
+  | .interrupt => .ok (some (.interrupt r.time r.mask))
+  | .goto _ (some v) => .ok (some (.jump r.time r.mask v))
+  | .goto d none => match lookupLabel tbl d with
+    | some lt => .ok (some (.jump r.time r.mask lt))
+    | none => .err undefLabelMsg
+  | .timeof l => match lookupLabel tbl l with
+    | some lt => .ok (some (.timeof r.time r.mask lt))
+    | none => .err undefLabelMsg
+  | .timeLabel | .label _ | .block | .item => .ok none
+
+def lowerAll (tbl : List (Nat × Int32)) : List Rec → Outcome (List CInstr)
+  | [] => .ok []
+  | r :: rs => match lowerRec tbl r with
+    | .ok o => match lowerAll tbl rs with
+      | .ok cs => .ok (o.toList ++ cs)
+      | e => e
+    | .err c => .err c
+    | .panic s => .panic s
+
+/-- a script body -> its instructions (times, masks, time-valued arguments) -/
+def compile (body : List Stmt) : Outcome (List CInstr) :=
+  match run body with
+  | .ok rs =>
+    let ls := lowered rs
+    let tbl := labelTable ls
+    if hasDupLabel tbl then .err dupLabelMsg else lowerAll tbl ls
+  | .err c => .err c
+  | .panic s => .panic s
+
+/-- the first-round statement language embeds (labels get a name nobody jumps to) -/
+def ofOld : Time.Stmt → Stmt
+  | .abs t => .abs t
+  | .rel d => .rel d
+  | .relBad => .relBad
+  | .instr => .instr
+  | .label => .label 0
+  | .block body => .blocks [ofOldList body]
+where ofOldList : List Time.Stmt → List Stmt
+  | [] => []
+  | s :: ss => ofOld s :: ofOldList ss
+
+end TruthModel.Time.X
+
+/-! ## decompile direction, extended: interrupt labels, difficulty masks, `goto L @ t`
+
+A stored interrupt-label instruction is an instruction like any other for the label emitter: the
+offset label and the time labels of its time are emitted in front of it, then `interrupt[n]:`.
+The difficulty mask is printed as a `{"..."}:` prefix of the statement (`make_diff_label`), never as
+a statement of its own, so it takes no part in the time arithmetic.  A jump is printed as
+`goto L` when its stored time argument equals the time its label sits at (`label.time_label`) and
+as `goto L @ t` otherwise (`raise_intrinsic_parts`); a jump instruction without a time argument
+(signature `o`) prints `offsetof(L)` only. -/
+namespace TruthModel.Time.X
+
+inductive RKind where
+  | plain
+  | interrupt
+  /-- destination instruction index (`n` = end of script), stored time argument (`none`: the
+  instruction has no time argument) -/
+  | jump (dest : Nat) (tm : Option Int32)
+deriving Repr, DecidableEq, Inhabited
+
+structure RInstr where
+  time : Int32
+  mask : Mask
+  kind : RKind
+deriving Repr, Inhabited
+
+/-- forget what the first-round model does not know about -/
+def RInstr.erase (i : RInstr) : Time.RInstr :=
+  { time := i.time, jump := match i.kind with | .jump d tm => some (d, tm) | _ => none }
+
+inductive Out where
+  | label (name : LabelName)
+  | abs (t : Int32)
+  | rel (d : Int32)
+  | instr (m : Mask)
+  | interrupt (m : Mask)
+  /-- `goto dest @ tm` / `goto dest` -/
+  | goto (m : Mask) (dest : LabelName) (tm : Option Int32)
+  /-- an instruction with `offsetof(dest)` and no time argument -/
+  | jumpO (m : Mask) (dest : LabelName)
+deriving Repr, DecidableEq, Inhabited
+
+def Out.erase : Out → Time.Out
+  | .label n => .label n
+  | .abs t => .abs t
+  | .rel d => .rel d
+  | .instr _ | .interrupt _ | .goto _ _ _ | .jumpO _ _ => .instr
+
+def noLabelMsg : String := "no label at jump destination"
+
+/-- the statement an instruction is printed as -/
+def stmtOf (all : List Time.RInstr) (i : RInstr) : Outcome Out :=
+  match i.kind with
+  | .plain => .ok (.instr i.mask)
+  | .interrupt => .ok (.interrupt i.mask)
+  | .jump dest tm =>
+    match labelFor all dest with
+    | none => .panic noLabelMsg     -- `self.offset_labels[&label_offset]`
+    | some l => match tm with
+      | some a => .ok (.goto i.mask l.name (if a = l.time then none else some a))
+      | none => .ok (.jumpO i.mask l.name)
+
+def liftOuts (os : List Time.Out) : List Out :=
+  os.filterMap fun o => match o with
+    | .label n => some (.label n)
+    | .abs t => some (.abs t)
+    | .rel d => some (.rel d)
+    | .instr => none
+
+def raiseFrom (all : List Time.RInstr) (prev : Int32) (k : Nat) : List RInstr → Outcome (List Out)
+  | [] =>
+    let lab := labelFor all k
+    let endTime := match lab with
+      | some l => l.time
+      | none => match all.getLast? with | some i => i.time | none => 0
+    match emitLabels prev endTime lab with
+    | .ok os => .ok (liftOuts os)
+    | .err c => .err c
+    | .panic s => .panic s
+  | i :: rest =>
+    match emitLabels prev i.time (labelFor all k) with
+    | .ok os => match stmtOf all i with
+      | .ok o => match raiseFrom all i.time (k + 1) rest with
+        | .ok os' => .ok (liftOuts os ++ o :: os')
+        | e => e
+      | .err c => .err c
+      | .panic s => .panic s
+    | .err c => .err c
+    | .panic s => .panic s
+
+def raise (is : List RInstr) : Outcome (List Out) :=
+  let all := is.map RInstr.erase
+  if all.any (fun i => match i.jump with | some (dest, _) => dest > all.length | none => false)
+  then .err badOffsetMsg
+  else raiseFrom all 0 0 is
+
+/-- the source statement an emitted statement is read back as (`label_12` / `label_12r` /
+`label_startr` become label names `3k`, `3k+1`, `3k+2`... any injective coding) -/
+def labelCode : LabelName → Nat
+  | .dest i => 3 * i
+  | .before i => 3 * i + 1
+  | .start => 2
+
+def tagIf (m : Mask) (s : Stmt) : Stmt := if m = defaultMask then s else .tagged m s
+
+def Out.toStmt : Out → Stmt
+  | .label n => .label (labelCode n)
+  | .abs t => .abs t
+  | .rel d => .rel d
+  | .instr m => tagIf m .instr
+  | .interrupt m => tagIf m .interrupt
+  | .goto m d tm => tagIf m (.goto (labelCode d) tm)
+  | .jumpO m _ => tagIf m .instr
+
+/-- what recompiling must give back for a stored instruction -/
+def RInstr.expected (i : RInstr) : CInstr :=
+  match i.kind with
+  | .plain => .plain i.time i.mask
+  | .interrupt => .interrupt i.time i.mask
+  | .jump _ (some a) => .jump i.time i.mask a
+  | .jump _ none => .plain i.time i.mask
+
+end TruthModel.Time.X
